@@ -1000,6 +1000,23 @@ func (sc *srvScen) respondingNodeVia(addr *net.UDPAddr, id [20]byte, ro bool, pi
 	if ro, _ := d.v.get("ro").int(); sc.o.passive && ro != 1 {
 		sc.viol("C19", "query sent by a passive node is not marked read-only")
 	}
+	if sc.r.rng.Intn(5) == 0 && addr.Port < 65000 {
+		// first a response with the right transaction ID from the same host but ANOTHER port (a neighbour behind
+		// the same NAT guessing the small sequential IDs): it answers nothing
+		other := sc.r.randID()
+		src2 := udp(addr.IP, addr.Port+1)
+		dq := &qspec{y: "r", t: d.t, rid: &other}
+		sc.ev("response with the outstanding transaction ID from %s (the query went to %s)", src2, addr)
+		sc.inject(src2, dq.bval().enc(), "m", dq, false, "ok", "nf")
+		select {
+		case res := <-done:
+			done <- res
+			sc.viol("C06", "a response from another port of the queried host completed the query (mismatched response)")
+			sc.viol("C07", "query completed by a reply from another address or with another transaction ID")
+		case <-time.After(200 * time.Microsecond):
+		}
+		sc.r.hist("table-event/response-from-other-port")
+	}
 	q := &qspec{y: "r", t: d.t, rid: &id, ro: ro}
 	sc.inject(addr, q.bval().enc(), "m", q, false, "ok", "nf")
 	select {
